@@ -1,10 +1,10 @@
 #!/usr/bin/env python3
 """Prints the quick-tier cost table of DESIGN.md section 11 from the evidence files of the last run."""
-import json, os, glob
+import json, os, glob, sys
 here = os.path.dirname(os.path.dirname(os.path.abspath(__file__)))
 print("| check | tier | wall | cpu | states | transitions | evaluations (non-trivial) |")
 print("|---|---|---|---|---|---|---|")
-for f in sorted(glob.glob(os.path.join(here, "evidence", "C*.json"))):
+for f in sorted(glob.glob(os.path.join(here, "evidence", *(sys.argv[1:2]), "C*.json"))):
     e = json.load(open(f))
     c = e["coverage"]
     wall = sum(c.get("phases_s", {}).values())
